@@ -6,7 +6,7 @@ from simkit import sessioncheck
 PROPERTY = "C06"
 ENGINE = "session"
 LEVEL = "exploration"
-BUDGET = {"quick": (40000, 45), "thorough": (2500000, 540)}
+BUDGET = {"quick": (100000, 60), "thorough": (2500000, 540)}
 RULE = ("seeded edit histories with 60% fault ops over all op families of C03-C05 and C09, every "
         "refusal reason of the quantifier provoked in a generated pre-state; whenever an op raises, "
         "the whole-universe snapshot (all roots, all alias lists) must be unchanged and no new "
